@@ -69,9 +69,19 @@ def message(cf=None, max_data=400):
         {'cf': st.just(c), 'fields': fields_for(c), 'data': data_bytes(max_data)}))
 
 
+_BASE = [b'']
+_SHIFT = {}
+
+
 def patterned(n, salt=0):
     """n bytes whose value depends on the offset (so reordering/duplication is visible)."""
-    return bytes(((i * 7 + salt + (i >> 8)) & 0xFF) for i in range(n))
+    if len(_BASE[0]) < n:
+        size = max(n, 1 << 16)
+        _BASE[0] = bytes(((i * 7 + (i >> 8)) & 0xFF) for i in range(size))
+    salt &= 0xFF
+    if salt not in _SHIFT:
+        _SHIFT[salt] = bytes((b + salt) & 0xFF for b in range(256))
+    return _BASE[0][:n].translate(_SHIFT[salt])
 
 
 # ------------------------------------------------------------------------------------------
